@@ -11,7 +11,7 @@ pub fn silence_panics() {
 
 /// Progress counter of the driver: every guarded call into the code under test and every output
 /// line is a beat. The monitor thread (below) reports a HANG when the process has burnt more than
-/// `VERIF_HANG_CPU` (default 300) seconds of CPU TIME without a beat - the longest legitimate single
+/// `VERIF_HANG_CPU` (default 600) seconds of CPU TIME without a beat - the longest legitimate single
 /// call of any driver takes about 10 s; CPU time does not depend on how busy the machine is.
 static BEATS: std::sync::atomic::AtomicU64 = std::sync::atomic::AtomicU64::new(0);
 pub fn beat() {
@@ -27,7 +27,7 @@ fn process_cpu_seconds() -> Option<f64> {
 /// `HANG-OBSERVED {..}` and exit with status 4 (the check turns that into a violation).
 pub fn start_hang_monitor(driver: &str) {
     let driver = driver.to_string();
-    let limit: f64 = std::env::var("VERIF_HANG_CPU").ok().and_then(|v| v.parse().ok()).unwrap_or(300.0);
+    let limit: f64 = std::env::var("VERIF_HANG_CPU").ok().and_then(|v| v.parse().ok()).unwrap_or(600.0);
     std::thread::spawn(move || {
         let mut last = BEATS.load(std::sync::atomic::Ordering::Relaxed);
         let mut cpu_at = process_cpu_seconds().unwrap_or(0.0);
